@@ -10,7 +10,7 @@ EXTENDS Wal
 
 ActNames == << "CallBegin", "StepEntry", "StepWrite", "StepFlush", "StepFsync", "StepDirSync", "StepOpenNext",
                "StepCreate", "StepSetLen", "StepUnlink", "StepMem", "StepPromise", "StepReturn",
-               "CrashProcess", "CrashPower", "Restart", "Open", "OpenFailed" >>
+               "CrashProcess", "CrashPower", "Restart", "Open", "OpenFailed", "Damage" >>
 
 StepName(kind) ==
   CASE kind = "ENTRY" -> "StepEntry" [] kind = "W" -> "StepWrite" [] kind = "FL" -> "StepFlush"
@@ -22,7 +22,7 @@ StepName(kind) ==
 ActTaken ==
   IF mode = "Ready" /\ mode' = "Closed" THEN
        (IF ncrash' > ncrash THEN (IF lastLoss' = "power" THEN "CrashPower" ELSE "CrashProcess") ELSE "Restart")
-  ELSE IF mode = "Closed" THEN (IF mode' = "Ready" THEN "Open" ELSE "OpenFailed")
+  ELSE IF mode = "Closed" THEN (IF ndamage' > ndamage THEN "Damage" ELSE IF mode' = "Ready" THEN "Open" ELSE "OpenFailed")
   ELSE IF todo = <<>> THEN "CallBegin"
   ELSE StepName(Head(todo)[1])
 
